@@ -1,0 +1,9 @@
+//go:build verif
+
+package zygo
+
+// Read-only accessor for the verification harness of property C06 (build tag verif).
+
+// VerifSymbolFlags reports whether a symbol was read as a dot symbol (a.b, .b) and
+// whether it was read with a trailing colon (name:).
+func VerifSymbolFlags(s *SexpSymbol) (isDot, colonTail bool) { return s.isDot, s.colonTail }
